@@ -347,6 +347,14 @@ func TestMiniPrograms(t *testing.T) {
 			if c.Pending > 0 {
 				ctx.Excluded(kPending)
 			}
+			if ctx.Replay {
+				// the recorded finding deep-caught-throw-corrupts-frames is intermittent: a replay gets three more tries
+				for i := 0; i < 3; i++ {
+					if err := oracle(c, ctx); err != nil {
+						return err
+					}
+				}
+			}
 			return oracle(c, ctx)
 		}})
 }
